@@ -82,30 +82,47 @@ NOT_FILE_OFFSETS = {
 }
 
 
+# manifest collections whose offsets the adjuster skips in the default configuration; not reproduced (they are only filled by
+# feature-gated writers), so reported as candidates
+CANDIDATE_ANCHORS = {
+    ('SegmentCatalog', 'index_segments'): 'filled only by the parallel_segments builder; no adjustment exists in any configuration (a file written with that feature and grown afterwards would keep stale offsets); not reproduced',
+    ('SegmentCatalog', 'temporal_segments'): 'adjusted only when the temporal_track feature is compiled in; a default build preserves the entries of a file written with the feature without moving them; not reproduced',
+}
+
+
 def toc_offset_fields(F, root='types::manifest::Toc'):
-    """(owner adt name, field) of every u64 `*offset` field reachable through the type graph of Toc"""
-    out, seen, st = set(), set(), [root]
-    paths = sorted(F.adts, key=len, reverse=True)
-    while st:
-        p = st.pop()
-        if p in seen or p not in F.adts:
-            continue
+    """(owner adt name, field) of every u64 `*offset` field reachable through the type graph of Toc, the set of types
+    visited, and - per offset field - the *anchors*: the Option/Vec-typed field on the way that names the manifest
+    instance holding it (('SegmentCatalog','tantivy_segments') for the Tantivy segment descriptors' bytes_offset)."""
+    out, seen = set(), set()
+    anchors = {}
+
+    def walk(p, path):
+        if p not in F.adts or len(path) > 8:
+            return
         seen.add(p)
         a = F.adts[p]
         for v in a['variants']:
             for fld in v['fields']:
                 ty = fld['ty']
+                here = path + [(a['name'], fld['name'], ty)]
                 if ty == 'u64' and fld['name'].endswith('offset'):
                     out.add((a['name'], fld['name']))
+                    anc = [(o, f) for o, f, t in here[:-1] if 'Option<' in t or 'Vec<' in t]
+                    anchors.setdefault((a['name'], fld['name']), set()).add(anc[-1] if anc else (here[0][0], here[0][1]))
                 for q in re.findall(r'[A-Za-z_][A-Za-z0-9_:]*', ty):
-                    if q in F.adts and q not in seen:
-                        st.append(q)
+                    if q in F.adts and q != p and not any(q.endswith('::' + o) for o, f, t in path):
+                        walk(q, here)
+    walk(root, [])
+    toc_offset_fields.anchors = anchors
     return out, seen
 
 
 def adjusted_fields(F, fn, delta_arg=2):
-    """(owner, field) stores in fn (and its closures) whose new value is old value (+) the delta parameter"""
+    """(owner, field) stores in fn (and its closures) whose new value is old value (+) the delta parameter; as a side result
+    adjusted_fields.anchors = the Toc fields (manifest instances) whose elements those stores go through"""
     out = set()
+    anchors = set()
     for b in [fn] + F.closures_of(fn):
         for st in lib.field_stores(b):
             fo = st['lhs'].field_owners()
@@ -114,6 +131,10 @@ def adjusted_fields(F, fn, delta_arg=2):
             sl = lib.slice_back(b, lib.rv_operands(st['rv']), through_calls=True, at=(st['bb'], None))
             if (delta_arg in sl.args or b is not fn) and ({'Add', 'AddWithOverflow'} & sl.ops or any(c.name in ('saturating_add', 'checked_add', 'wrapping_add') for c in sl.calls)) and fo[-1] in {x for x in sl.fields}:
                 out.add(fo[-1])
+                anchors |= set(fo)
+                base = lib.slice_back(b, [{'c': {'l': st['lhs'].l, 'p': []}}], through_calls=True, at=(st['bb'], st['idx']))
+                anchors |= {(o, f) for o, f in base.fields if o}
+    adjusted_fields.anchors = anchors
     return out
 
 
@@ -256,7 +277,15 @@ def run(ctx):
             if (owner, fld) in NOT_FILE_OFFSETS:
                 ctx.ok('COVER-C02d', adj, '%s.%s is not a file position (%s)' % (owner, fld, NOT_FILE_OFFSETS[(owner, fld)]))
             elif (owner, fld) in got:
-                ctx.ok('COVER-C02d', adj, '%s.%s is moved by delta' % (owner, fld))
+                missing_anchor = sorted(a for a in toc_offset_fields.anchors.get((owner, fld), ()) if a not in adjusted_fields.anchors)
+                for a in [a for a in missing_anchor if a in CANDIDATE_ANCHORS]:
+                    ctx.candidate('COVER-C02d', adj, '%s.%s held in %s.%s is not moved on WAL growth: %s' % (owner, fld, a[0], a[1], CANDIDATE_ANCHORS[a]), detail='offset-not-shifted-for:%s.%s' % a)
+                missing_anchor = [a for a in missing_anchor if a not in CANDIDATE_ANCHORS]
+                if missing_anchor:
+                    ctx.bad('COVER-C02d', adj, '%s.%s is moved for some manifests but not for the ones held in %s: after a WAL growth those still point delta bytes before their data' % (
+                        owner, fld, ', '.join('%s.%s' % a for a in missing_anchor)), sink='%s.%s' % (owner, fld), detail='offset-not-shifted-for:' + ','.join('%s.%s' % a for a in missing_anchor))
+                else:
+                    ctx.ok('COVER-C02d', adj, '%s.%s is moved by delta (%s)' % (owner, fld, ', '.join(sorted('%s.%s' % a for a in toc_offset_fields.anchors.get((owner, fld), ())))))
             else:
                 ctx.bad('COVER-C02d', adj, '%s.%s is a file offset stored in the TOC but adjust_offsets_after_wal_growth does not move it: after a WAL growth the rewritten TOC '
                         'points %s bytes before the data, and an open before the next commit reads the wrong bytes' % (owner, fld, 'delta'), sink='%s.%s' % (owner, fld), detail='offset-not-shifted:%s.%s' % (owner, fld))
